@@ -276,8 +276,8 @@ func c09c(c *Ctx) {
 		}
 	}
 	for _, ep := range []struct {
-		name       string
-		rejectPre  bool
+		name      string
+		rejectPre bool
 	}{{"ctlog.(*Log).addChain", true}, {"ctlog.(*Log).addPreChain", false}} {
 		f := c.Fn(ep.name)
 		if f == nil {
